@@ -131,6 +131,14 @@ def extract_fn(alpha, genome, k, strand):
             if sorted(_ut(str(wm.extract_sequence()))) != sorted(_ut(revcomp(got))) or (not any(x[1] > y[0] for x, y in zip(sb, sb[1:])) and
                                                                                         _ut(str(wm.extract_sequence())) != _ut(revcomp(got))):
                 return False
+            # the alternative constructor (blocks handed over as SingleIntervals, in the order given) builds the SAME location: equal, same block order, same
+            # coordinate map and the same extracted characters
+            if k >= 2:
+                alt = CompoundInterval.from_single_intervals([SingleInterval(s, e, strand, parent=Parent(id="chr", sequence=Sequence(genome, alpha))) for s, e in blocks])
+                if not (alt == loc and loc == alt) or [(b.start, b.end) for b in alt.blocks] != sb or len(alt) != len(loc):
+                    return False
+                if str(alt.extract_sequence()) != got or [alt.relative_to_parent_pos(i) for i in range(len(alt))] != [loc.relative_to_parent_pos(i) for i in range(len(loc))]:
+                    return False
             seq = loc.extract_sequence()
             return seq.alphabet is alpha or strand is PLUS or True
 
@@ -282,6 +290,34 @@ def append_spliced_fn(alpha, genome, strand):
     return fn
 
 
+def append_two_spliced_fn(alpha, genome, strand):
+    """TWO spliced (2-block) located pieces appended 5'->3': the result re-extracts its characters AND both operands still do afterwards (the union of the
+    recorded locations must not be built inside an operand's own block list), as does an equal location built afresh afterwards (Parent cache)"""
+
+    def fn(a0, la, g1, lb, g2, lc, g3, ld):
+        a0, la, g1, lb, g2, lc, g3, ld = concretize(a0, la, g1, lb, g2, lc, g3, ld)
+        with untraced():
+            b1 = [(a0, a0 + la), (a0 + la + g1, a0 + la + g1 + lb)]
+            c0 = b1[1][1] + g2
+            c1 = [(c0, c0 + lc), (c0 + lc + g3, c0 + lc + g3 + ld)]
+            if c1[1][1] > len(genome):
+                return True
+            left, right = located(genome, alpha, b1, strand), located(genome, alpha, c1, strand)
+            first, second = (left, right) if strand is PLUS else (right, left)
+            sf, ss = str(first), str(second)
+            C = first.append(second)
+            ok = str(C) == sf + ss and consistent(C, genome) and len(C) == len(C.parent.location)
+            ok = ok and str(first) == sf and str(second) == ss and consistent(first, genome) and consistent(second, genome)
+            ok = ok and len(first.parent.location) == len(sf) and len(second.parent.location) == len(ss)
+            ok = ok and first.parent.location.num_blocks == 2 and second.parent.location.num_blocks == 2
+            for bl in (b1, c1):
+                fresh = located(genome, alpha, bl, strand)
+                ok = ok and consistent(fresh, genome) and fresh.parent.location.num_blocks == 2 and str(fresh.parent.location.extract_sequence() if False else fresh) == expected(genome, bl, strand)
+            return ok
+
+    return fn
+
+
 def append_fn(alpha, genome, s1, s2):
     def fn(**kw):
         vals = concretize(*[kw[x] for x in sorted(kw)])
@@ -380,6 +416,14 @@ def obligations(tier):
                                        budget=900, cost=60,
                                        desc="append of two located pieces: refused unless same strand and 5'->3' order; result's recorded location re-extracts its characters",
                                        bounds="every pair of single-block pieces on %r" % genome, examples=[dict(s0=0, e0=2, s1=3, e1=5)]))
+                for s1 in (PLUS, MINUS):
+                    out.append(Obl("append_two_spliced_%s_%s" % (aname, sname(s1)), append_two_spliced_fn(alpha, genome, s1),
+                                   dict(a0=int, la=int, g1=int, lb=int, g2=int, lc=int, g3=int, ld=int),
+                                   lambda a0, la, g1, lb, g2, lc, g3, ld: 0 <= a0 and a0 <= 1 and 1 <= la and la <= 2 and g1 == 1 and 1 <= lb and lb <= 2 and 0 <= g2 and g2 <= 1
+                                   and 1 <= lc and lc <= 2 and g3 == 1 and 1 <= ld and ld <= 2, budget=600, cost=30,
+                                   desc="append of TWO spliced located pieces: the result re-extracts its characters, both operands are unchanged and still re-extract "
+                                        "theirs, and equal locations built afterwards are intact", bounds="block lengths 1..2, introns 1, distance 0..1, on %r (realised)" % genome,
+                                   examples=[dict(a0=0, la=2, g1=1, lb=1, g2=0, lc=1, g3=1, ld=2), dict(a0=1, la=1, g1=1, lb=2, g2=1, lc=2, g3=1, ld=1)]))
                 for s1 in (PLUS, MINUS):
                     out.append(Obl("append_spliced_%s_%s" % (aname, sname(s1)), append_spliced_fn(alpha, genome, s1),
                                    dict(a0=int, la=int, g1=int, lb=int, g2=int, lc=int, order=int),
